@@ -553,6 +553,24 @@ theorem slot_is_piece (c : Cmd) (u : UInfo) (required incls : List Id) (fo : Boo
   refine ⟨(if fo then [] else opts ++ groups) ++ pos.filterMap id, by simp [argPieces, h], ?_⟩
   exact List.mem_append_right _ (mem_filterMap_id.mpr (mem_of_getSlot hs))
 
+/-- **a group's usage string does not advertise hidden members**: every member it displays is an arg of the level, a
+member of the (unrolled) group, and visible -/
+theorem groupShown_visible (c : Cmd) (g : Id) (shown : List Arg) (h : groupShown c g = some shown) :
+    ∃ ms, argsInGroup c g = some ms ∧ ∀ a ∈ shown, a ∈ c.args ∧ a.id ∈ ms ∧ a.hide = false := by
+  unfold groupShown at h
+  cases hm : argsInGroup c g with
+  | none => rw [hm] at h; cases h
+  | some ms =>
+    rw [hm] at h
+    simp only [Option.map_some, Option.some.injEq] at h
+    subst h
+    refine ⟨ms, rfl, ?_⟩
+    intro a ha
+    obtain ⟨ha1, ha2⟩ := List.mem_filter.mp ha
+    obtain ⟨i, hi, hf⟩ := List.mem_filterMap.mp ha1
+    obtain ⟨h1, h2⟩ := C03.find_mem hf
+    exact ⟨h1, h2 ▸ hi, by simpa using ha2⟩
+
 /-! ### `[OPTIONS]` -/
 
 /-- **when `[OPTIONS]` is written**: exactly when some option that is not built in (`--help`/`--version`/help and
@@ -735,7 +753,7 @@ theorem formatGroup_isSome (c : Cmd) (u : UInfo) (wg : C01.GroupsOk c) (g : Id) 
   have h1 : (argsInGroup c g).isSome = true :=
     C01.unrollArgsInGroup_isSome c wg _ [g] [] (by intro x hx; simp only [List.mem_singleton] at hx; exact hx ▸ hg)
   refine ⟨h1, ?_⟩
-  unfold formatGroup
+  unfold formatGroup groupShown
   cases h : argsInGroup c g with
   | none => rw [h] at h1; cases h1
   | some l => rfl
